@@ -8,6 +8,10 @@
                                         outcome (shape data) of covariance(tensor named (n0 n1), fd) )
                                    matrices are lists of rows; the result names "i" "j" are
                                    encoded by their ASCII codes 105 106
+     (14 4 ty route (n0 n1) rows fd) ONE covariance route only (for tall / wide data, where the other
+                                   orientation would be a huge matrix): route 0 = row features,
+                                   1 = column features, 2 = tensor named (n0 n1) with feature
+                                   dimension fd; result as the corresponding component of op 3
      (14 5 ty (x ..))              softmax   -> list
      (14 6 ty p r)                 f1_score  -> value
      (14 7 ((m e) ..))             FLOAT ORACLE (not a model of f64 arithmetic): softmax over the f64
@@ -47,6 +51,21 @@ Definition c14_run (op : Z) (args : list sx) : sx :=
                                   | (d0, d1, c) => SL [SL [spair snat sN d0; spair snat sN d1]; smat c]
                                   end)
                         (covariance ops (n0, n1) m fd) ]
+      | _, _, _, _ => bad_case
+      end
+  | 4%Z, [SZ route; SL [n0; n1]; rows; fd] =>
+      match dnat n0, dnat n1, dmat rows, dnat fd with
+      | Some n0, Some n1, Some m, Some fd =>
+          if Nat.eqb n0 n1 then bad_case else
+          match route with
+          | 0%Z => soutcome smat (covariance_row_features ops m)
+          | 1%Z => soutcome smat (covariance_column_features ops m)
+          | 2%Z => soutcome (fun r => match r with
+                                     | (d0, d1, c) => SL [SL [spair snat sN d0; spair snat sN d1]; smat c]
+                                     end)
+                            (covariance ops (n0, n1) m fd)
+          | _ => bad_case
+          end
       | _, _, _, _ => bad_case
       end
   | 5%Z, [l] => match dnums l with Some l => snums (softmax ops l) | None => bad_case end
